@@ -1,4 +1,8 @@
+import FrappyModel.Generated.C19
 import FrappyModel.Generated.C20
 import FrappyModel.Node.Logging
+import FrappyModel.Small.Discovery
+import FrappyModel.Small.DiscoveryTables
 import FrappyModel.Small.Rotate
+import FrappyModel.Spec.C19
 import FrappyModel.Spec.C20
